@@ -6,7 +6,7 @@ SRC = "c04_parsers.c"
 ALL_TEXT = "b64,hex,utf8,uuid,ip,u64"
 
 # cases per *target* (a stage with k targets runs k times as many cases, round-robin)
-QA, TA = 150000, 3000000   # asan
+QA, TA = 150000, 4000000   # asan
 QR, TR = 150000, 2000000   # rel + guard pages
 
 
